@@ -29,6 +29,62 @@ def canonicalise(tree: ast.AST) -> None:
       not not X                ->  X
       not (a == b) / (a in b) / (a is b) and their negative forms -> the single comparison
     Line numbers stay those of the original nodes."""
+    # comparisons are oriented: a constant stands on the right; otherwise `<` / `<=` are preferred
+    #   1 < len(x) -> len(x) > 1      n > len(x) -> len(x) < n      "a" == x -> x == "a"
+    _flip = {ast.Gt: ast.Lt, ast.GtE: ast.LtE, ast.Lt: ast.Gt, ast.LtE: ast.GtE, ast.Eq: ast.Eq, ast.NotEq: ast.NotEq}
+    for node in ast.walk(tree):
+        if isinstance(node, ast.Compare) and len(node.ops) == 1 and type(node.ops[0]) in _flip:
+            l_, r_ = node.left, node.comparators[0]
+            lc, rc = isinstance(l_, ast.Constant), isinstance(r_, ast.Constant)
+            op = type(node.ops[0])
+            if (lc and not rc) or (not lc and not rc and op in (ast.Gt, ast.GtE)):
+                node.left, node.comparators[0], node.ops[0] = r_, l_, _flip[op]()
+    # for k, v in d.items() with an unused k (v)  ->  for v in d.values()  (for k in d)
+    for fn_ in ast.walk(tree):
+        if not isinstance(fn_, (ast.FunctionDef, ast.AsyncFunctionDef)):
+            continue
+        # reads of a name that are not covered by a loop / comprehension binding that name
+        binders = []  # (names bound, nodes in which the binding is visible)
+        for n_ in ast.walk(fn_):
+            if isinstance(n_, ast.For):
+                binders.append(({x.id for x in ast.walk(n_.target) if isinstance(x, ast.Name)}, n_.body + n_.orelse))
+            elif isinstance(n_, (ast.ListComp, ast.SetComp, ast.GeneratorExp, ast.DictComp)):
+                bound = {x.id for g_ in n_.generators for x in ast.walk(g_.target) if isinstance(x, ast.Name)}
+                binders.append((bound, [n_]))
+        covered: dict = {}
+        for bound, scope in binders:
+            for sc in scope:
+                for x in ast.walk(sc):
+                    if isinstance(x, ast.Name) and isinstance(x.ctx, (ast.Load, ast.Del)) and x.id in bound:
+                        covered.setdefault(x.id, set()).add(id(x))
+        free_reads: dict = {}
+        for x in ast.walk(fn_):
+            if isinstance(x, ast.Name) and isinstance(x.ctx, (ast.Load, ast.Del)) and id(x) not in covered.get(x.id, ()):
+                free_reads[x.id] = free_reads.get(x.id, 0) + 1
+
+        def _reads_in(nodes, name):
+            return sum(1 for sc in nodes for x in ast.walk(sc) if isinstance(x, ast.Name) and isinstance(x.ctx, (ast.Load, ast.Del)) and x.id == name)
+
+        for n_ in ast.walk(fn_):
+            if isinstance(n_, ast.For):
+                scope_, holder = n_.body + n_.orelse, n_
+            elif isinstance(n_, (ast.ListComp, ast.SetComp, ast.GeneratorExp, ast.DictComp)) and len(n_.generators) == 1:
+                holder = n_.generators[0]
+                scope_ = [x for x in ([getattr(n_, "elt", None), getattr(n_, "key", None), getattr(n_, "value", None)] + list(holder.ifs)) if x is not None]
+            else:
+                continue
+            if isinstance(holder.target, ast.Tuple) and len(holder.target.elts) == 2 and all(isinstance(e_, ast.Name) for e_ in holder.target.elts):
+                it_ = holder.iter
+                if isinstance(it_, ast.Call) and isinstance(it_.func, ast.Attribute) and it_.func.attr == "items" and not it_.args and not it_.keywords:
+                    k_, v_ = holder.target.elts
+                    k_unused = _reads_in(scope_, k_.id) == 0 and free_reads.get(k_.id, 0) == 0
+                    v_unused = _reads_in(scope_, v_.id) == 0 and free_reads.get(v_.id, 0) == 0
+                    if k_unused and not v_unused:
+                        holder.target = v_
+                        it_.func.attr = "values"
+                    elif v_unused and not k_unused:
+                        holder.target = k_
+                        holder.iter = it_.func.value
     # x in d.keys() -> x in d ; for k in d.keys() -> for k in d ; min([a, b]) -> min(a, b)
     for node in ast.walk(tree):
         if isinstance(node, ast.Compare) and len(node.ops) == 1 and isinstance(node.ops[0], (ast.In, ast.NotIn)) and _is_keys_call(node.comparators[0]):
@@ -113,6 +169,11 @@ def canonicalise(tree: ast.AST) -> None:
                     neg = _simplify_not(ast.copy_location(ast.UnaryOp(op=ast.Not(), operand=st.test), st.test))
                     nested = ast.copy_location(ast.If(test=neg, body=body[i + 1:], orelse=[]), st)
                     body[i:] = [nested]
+                elif isinstance(st, ast.If) and not st.orelse and len(st.body) > 1 and isinstance(st.body[-1], ast.Continue) and body[i + 1:]:
+                    # if T: A; continue   REST   ->   if T: A else: REST
+                    st.body = st.body[:-1]
+                    st.orelse = body[i + 1:]
+                    body[i + 1:] = []
     for node in ast.walk(tree):
         if isinstance(node, ast.If) and node.orelse and not (len(node.orelse) == 1 and isinstance(node.orelse[0], ast.If)):
             t = node.test
